@@ -8,6 +8,7 @@ import (
 	"os/exec"
 	"path/filepath"
 	"regexp"
+	"runtime"
 	"sort"
 	"strings"
 	"sync"
@@ -198,7 +199,7 @@ func selfTest(r *check.Result, repo, verif, prop string) {
 		return
 	}
 	results := make([]string, len(vs))
-	sem := make(chan struct{}, 6)
+	sem := make(chan struct{}, selfTestWorkers())
 	var wg sync.WaitGroup
 	for i := range vs {
 		wg.Add(1)
@@ -275,4 +276,16 @@ func selfTest(r *check.Result, repo, verif, prop string) {
 	}
 	r.Extra["selftest_detail"] = detail
 	fmt.Printf("  self-test: %d scripted edits: %d breaking compiled, %d detected, %d missed; %d benign, %d silent, %d false alarms; %d stale, %d not compiling\n", st["variants"], st["compiled"], st["detected"], st["missed"], st["benign"], st["benign_silent"], st["benign_false_alarm"], st["stale"], st["did_not_compile"])
+}
+
+// selfTestWorkers: how many variant replays run at a time (each child loads the program: about 1 GB and one core).
+func selfTestWorkers() int {
+	n := runtime.NumCPU() - 2
+	if n < 4 {
+		n = 4
+	}
+	if n > 14 {
+		n = 14
+	}
+	return n
 }
